@@ -16,6 +16,8 @@ import jax  # noqa: E402
 import jax.core  # noqa: E402
 import jax.extend.core  # noqa: E402
 
+jax.config.update('jax_traceback_filtering', 'off')  # oracles attribute exceptions by the frames they pass through
+
 if not hasattr(jax.core, 'get_opaque_trace_state'):
   jax.core.get_opaque_trace_state = jax.extend.core.get_opaque_trace_state
 
